@@ -133,7 +133,10 @@ def run(ctx):
                             if dd and "--" in out:
                                 ctx.fail("comment-double-dash", "coerced comment contains '--'", {"flags": kw, "data": repr(s)})
                             if out.endswith("-"):
-                                cls = "comment-trailing-dash:preventDashAtCommentEnd-only" if not dd else "comment-trailing-dash"
+                                # recorded: the preventDashAtCommentEnd flag alone is never read, i.e. the data comes back
+                                # UNCHANGED; a trailing dash on data that was altered is something else
+                                cls = "comment-trailing-dash:preventDashAtCommentEnd-only" if (not dd and out == s) \
+                                    else "comment-trailing-dash"
                                 ctx.fail(cls, "coerced comment ends in '-'", {"flags": kw, "data": repr(s), "out": repr(out)})
                         out, exc = call(Ff.coercePubid, s)
                         rec("xml:pubid", "xml:pubid %s %s" % (fw, wire.enc_str(s)), out, exc, nontrivial=(out != s))
@@ -159,7 +162,9 @@ def witness_case(ctx, w):
     from html5lib._ihatexml import InfosetFilter
     out = InfosetFilter(**w["flags"]).coerceComment(w["data"])
     if out.endswith("-"):
-        ctx.fail("comment-trailing-dash:preventDashAtCommentEnd-only", "coerced comment ends in '-'", w)
+        only = out == w["data"] and not w["flags"].get("preventDoubleDashComments")
+        ctx.fail("comment-trailing-dash:preventDashAtCommentEnd-only" if only else "comment-trailing-dash",
+                 "coerced comment ends in '-'", w)
 
 
 def replay(path):
